@@ -936,7 +936,8 @@ THEOREMS = ["direct_correct", "direct_unique", "direct_correct_ctx", "interp_sou
             "names_distinct_plain", "names_distinct_plain_seeded", "names_fresh_plain", "console_was_not_reserved",
             "encodeIdent_inj_utf8", "names_distinct_plain_valid", "renderInj_ascii", "names_distinct_plain_ascii", "render_clash",
             "encodeIdent_ascii_id", "tuple_assign_counterexample", "tuple_assign_partial"]
-ENV_THEOREMS = ["reserved_covers_es", "reserved_model_exact", "reserved_covers_used", "keywords_alone_miss_console"]
+ENV_THEOREMS = ["reserved_covers_es", "reserved_model_exact", "reserved_covers_used", "keywords_alone_miss_console",
+                "escape_cutoff_is_loop_body"]
 
 JOB_TIMEOUT = 300
 
@@ -1392,6 +1393,16 @@ def root_seeded(kw, used):
     return [n for n, a in zip(cands, ans[1:]) if a.isdigit() and int(a) > 0]
 
 
+def escape_cutoffs():
+    """the scope at which EscapingObjects stops looking outwards, per construct: pairs (AST node, expression whose scope is
+    marked as a bottom scope) read from compiler/internal/analysis/escape.go"""
+    src = open(os.path.join(C.REPO, "compiler", "internal", "analysis", "escape.go")).read()
+    res = []
+    for m in re.finditer(r"case \*ast\.(\w+):\s*\n(?:\s*//[^\n]*\n)*\s*v\.bottomScopes\[v\.info\.Scopes\[([\w.]+)\]\] = true", src):
+        res.append((m.group(1), m.group(2)))
+    return res
+
+
 def write_generated(kw, used, seeded):
     gdir = os.path.join(C.LEAN, "GV", "Generated")
     os.makedirs(gdir, exist_ok=True)
@@ -1406,8 +1417,9 @@ def write_generated(kw, used, seeded):
            "def rootSeeded : List String := %s\n"
            "def rootSeededBytes : List (List Nat) := %s\n"
            "def usedUnqualified : List String := %s\n"
+           "def escapeCutoffs : List (String × String) := [%s]\n"
            "end GV.Generated\n") % (strs(kw), strs(seeded), "[" + ", ".join(str(list(k.encode())) for k in seeded) + "]",
-                                    strs(sorted(used)))
+                                    strs(sorted(used)), ", ".join("(%s, %s)" % (json.dumps(a), json.dumps(b)) for a, b in escape_cutoffs()))
     old = open(path).read() if os.path.exists(path) else None
     if old != src:
         with open(path, "w") as f:
@@ -1547,7 +1559,12 @@ def run(tier, seed):
             gens = []
             for i in range(n):
                 direct_only = rng.random() < 0.75
-                focus = {"act": {"runfs": 0.0}} if direct_only else {}
+                focus = {"act": {"runfs": 0.0}} if direct_only else {"act": {}}
+                if i % 3 == 0:
+                    # the nested-loop capture family: deep loop nests whose header / body variables are captured by closures
+                    # and pointers in every (outer, inner) iteration and used after the loops have ended
+                    focus["stmt"] = {"loop": 3.0, "continue": 1.5, "break": 1.3}
+                    focus["act"].update({"capture-closure": 3.0, "capture-pointer": 3.0, "closure": 2.5, "runpp": 2.0})
                 g = gen_program(rng, rng.choice([12, 25, 40]), maxdepth=rng.choice([3, 4, 5]), focus=focus)
                 if direct_only:
                     for c in g.calls:
